@@ -60,8 +60,20 @@ package main
 // The read-modify-write closure of embeddedBackend.IncrBy: on success the stored result
 // is the mathematical sum; the overflow error is returned only when the sum does not
 // fit. (current, delta, result are the closure's local / captured variables.)
+//@ axiom gateway-sentinels-distinct: errOverflow != errNotInteger
+
+// The storage engine cannot return the gateway's own (unexported) sentinel errors.
+//@ func github.com/feichai0017/NoKV::(*Txn).Get
+//@   trusted
+//@   ensures [not-a-gateway-sentinel] rerr != errOverflow && rerr != errNotInteger
+//@   modifies nothing
+//@ func github.com/feichai0017/NoKV::(*Txn).SetEntry
+//@   trusted
+//@   ensures [not-a-gateway-sentinel] result != errOverflow && result != errNotInteger
+//@   modifies nothing
+
 //@ func (*embeddedBackend).IncrBy$1
 //@   property C29
 //@   ensures [exact-sum] ret == nil ==> math(result) == math(current) + math(delta)
-// (not claimed: 'overflow is reported only when the sum does not fit' - other error returns of the
-// transaction callbacks may carry the same sentinel, the clause cannot be stated per return site)
+//@   exit [overflow-only-when-sum-does-not-fit] ret == errOverflow ==> math(current) + math(delta) > 9223372036854775807 || math(current) + math(delta) < -9223372036854775808
+//@   exit [sum-that-does-not-fit-is-refused] (math(current) + math(delta) > 9223372036854775807 || math(current) + math(delta) < -9223372036854775808) ==> ret != nil
